@@ -458,7 +458,7 @@ def r4_formats(chk, repo, d):
     # the width with which a value is computed before it is stored
     st = repo.func(E + "Memory._set")
     calls = [c for c, b in find("$v.calculate(None, $long)", st)
-             if "fmt" in unparse(c.args[1])]
+             if "self" in unparse(c.args[1])]
     need(len(calls) == 1, "Memory._set: computation-width expression not "
                           "found")
     longx = calls[0].args[1]
@@ -483,7 +483,7 @@ def r4_formats(chk, repo, d):
     cal = repo.func(E + "Memory.calculate")
     ys = [y for y in walk_no_nested(cal) if isinstance(y, ast.Yield)
           and isinstance(y.value, ast.Tuple) and len(y.value.elts) == 2
-          and "fmt" in unparse(y.value.elts[1])]
+          and "self" in unparse(y.value.elts[1])]
     need(len(ys) == 1, "Memory.calculate: width expression not found")
     wx = ys[0].value.elts[1]
     fails = []
@@ -519,46 +519,62 @@ def r5_signext(chk, repo, d):
     # `long`, say) are folded first; instruction emission is skipped
     prelude = [s for s in ld.body[:ld.body.index(guard)]
                if not isinstance(s, ast.Expr)]
-    shift_defs = [s for s in body if isinstance(s, ast.Assign)
-                  and unparse(s.targets[0]) == "shift"]
-    regs_defs = [s for s in body if isinstance(s, ast.Assign)
-                 and unparse(s.targets[0]) == "regs"]
-    ext = [s for s in body if isinstance(s, ast.Assign) and match(
+    ext = [s for s in ast.walk(guard) if isinstance(s, ast.Assign) and match(
         "(regs[dst] << shift) >> shift", s.value) is not None
-        and unparse(s.targets[0]) == "regs[dst]"]
-    need(len(shift_defs) == 1 and len(regs_defs) == 1,
-         "Expression.load: shift / regs definitions not found")
+        and match("regs[dst]", s.targets[0]) is not None]
     chk.ob("R01.5", E + "Expression.load", "extension is (reg << s) >> s on "
            "the loaded register", len(ext) == 1, guard,
            "a left shift followed by a right shift by the same amount in "
            "a signed register view")
+    need(len(ext) == 1, "Expression.load: the shift pair was not found")
+    ext = ext[0]
+    names = match("(regs[dst] << shift) >> shift", ext.value)
+    regs_name = names.get("~regs", "regs")
+    shift_name = names.get("~shift", "shift")
+
+    def walk_body(stmts, env, out):
+        for st in stmts:
+            if st is ext:
+                out.append((env.get(shift_name), env.get(regs_name)))
+            elif isinstance(st, ast.If):
+                if ev.truth(ev.eval(st.test, env)):
+                    walk_body(st.body, env, out)
+                else:
+                    walk_body(st.orelse, env, out)
+            elif isinstance(st, ast.Expr):
+                continue
+            else:
+                ev.run_stmt(st, env)
     fake_ebpf = Obj(None, {"sr": "sr", "sw": "sw", "r": "r", "w": "w"})
     fails = []
     rows = 0
     for fmt in list(ALL_LETTERS) + [(3, 1)]:
         for long in (True, False, None):
             rows += 1
-            env = {"fmt": fmt, "long": long,
+            env = {"fmt": fmt, "long": long, "dst": 3,
                    "self": Obj(None, {"ebpf": fake_ebpf})}
+            out = []
             try:
                 if ev.run_block(prelude, env) is not None:
                     fails.append(f"{fmt!r}/{long}: returns before the guard")
                     continue
-                g = bool(ev.truth(ev.eval(guard.test, env)))
+                long = env["long"]
+                walk_body([guard], env, out)
             except (Raised, Unknown) as e:
                 fails.append(f"{fmt!r}/{long}: {e}")
                 continue
+            g = bool(out)
             width = 64 if long else 32
             signed = isinstance(fmt, str) and fmt in "bhiq"
             bits = calcsize(fmt) * 8 if signed else None
             want = bool(signed and bits < width)
             if g != want:
-                fails.append(f"fmt {fmt!r} long={long}: extends={g}, "
+                fails.append(f"fmt {fmt!r} long={long}: extends={g}"
+                             f"{' by ' + str(out[0][0]) if out else ''}, "
                              f"expected {want}")
                 continue
             if g:
-                sh = ev.eval(shift_defs[0].value, env)
-                rg = ev.eval(regs_defs[0].value, env)
+                sh, rg = out[0]
                 if sh != width - bits:
                     fails.append(f"fmt {fmt!r} long={long}: shift {sh}, "
                                  f"expected {width - bits}")
